@@ -138,10 +138,17 @@ def havoc_heap_for_loop(eng, s, fr, spec):
         if isinstance(selfv, V) and selfv.ty[0] == 'ref':
             H.havoc(eng, 'loop head', only=['%s.%s' % (selfv.ty[1], f) for f in fields])
             return
+    # the object invariant is assumed for the arbitrary iteration: it is owed when the loop is entered (here) and again
+    # whenever the loop goes round (loops.run_loop asserts it at the end of the body when this flag is set)
+    # (clauses the loop spec lists under `objinv_exempt` are deliberately suspended while the loop runs: neither owed nor assumed)
+    exempt = set(spec.extra.get('objinv_exempt', [])) if spec is not None else set()
+    held = [o for o in eng.st.ghost.get('unit_objs', []) if o.t.get_id() in eng.st.ghost.get('inv_objects', {})]
+    for o in held:
+        H.assert_invariant(eng, o, 'loop-entry', exempt=exempt)
     H.havoc(eng, 'loop head')
-    for o in eng.st.ghost.get('unit_objs', []):
-        if o.t.get_id() in eng.st.ghost.get('inv_objects', {}):
-            H.assume_invariant(eng, o)
+    for o in held:
+        H.assume_invariant(eng, o, exempt=exempt)
+    return held
 
 
 SAFE_LOCAL_METHODS = {'append', 'add', 'extend', 'format', 'encode', 'decode', 'get', 'items', 'values', 'keys'}
